@@ -21,6 +21,7 @@ import VrlModel.Driver.C19
 import VrlModel.Driver.C32
 import VrlModel.Driver.C33
 import VrlModel.Driver.C34
+import VrlModel.Driver.C03
 import VrlModel.Driver.Search
 
 /-- Line protocol driver: one case per line `op <tab> arg…`, one reply line per case. -/
@@ -48,6 +49,7 @@ def handlers : List (String → List String → Option String) := [
   Driver.C32.handle,
   Driver.C33.handle,
   Driver.C34.handle,
+  Driver.C03.handle,
   Driver.SearchOps.handle
 ]
 
